@@ -93,12 +93,16 @@ def run_tlc(module, consts, invariants=(), name=None, workers=8, timeout=1800, e
         cmd += ["-simulate", simulate]
     cmd += [os.path.join(SPEC, module + ".tla")]
     env = dict(os.environ)
-    env["JAVA_TOOL_OPTIONS"] = f"-Xmx{heap} -Xss512m" + (f" -Dtlc2.tool.queue.IStateQueue={queue}" if queue else "")
+    # TLC/SANY scratch directories go under the run's own work directory (removed below), not /tmp
+    jtmp = os.path.join(d, "jtmp")
+    os.makedirs(jtmp, exist_ok=True)
+    env["JAVA_TOOL_OPTIONS"] = (f"-Xmx{heap} -Xss512m -Djava.io.tmpdir={jtmp}"
+                                + (f" -Dtlc2.tool.queue.IStateQueue={queue}" if queue else ""))
     t0 = time.time()
     with open(out, "w") as fo:
         p = subprocess.run(cmd, stdout=fo, stderr=subprocess.STDOUT, cwd=SPEC, env=env)
     wall = time.time() - t0
-    subprocess.run(["rm", "-rf", os.path.join(d, "meta")])
+    subprocess.run(["rm", "-rf", os.path.join(d, "meta"), jtmp])
     txt_tail = subprocess.run(["grep", "-v", "-e", '^<<"', out], capture_output=True, text=True).stdout
     if p.returncode in (124, 137):
         raise ToolError(f"TLC timed out on {name}")
